@@ -1,0 +1,174 @@
+// SPDX-License-Identifier: Apache-2.0 OR MIT
+
+//! Verification hooks.
+//!
+//! This module only exists when the crate is compiled with
+//! `--cfg fast_tlsh_verif` (never by default and not a cargo feature).
+//! It exposes internal state and internal entry points to an external
+//! verification harness.  Nothing here is part of the public API.
+
+#![cfg(fast_tlsh_verif)]
+#![allow(missing_docs)]
+#![allow(clippy::missing_docs_in_private_items)]
+
+use core::sync::atomic::{AtomicU8, AtomicUsize, Ordering};
+
+/// The complete state of a generator, independent of its parameters.
+///
+/// Unused trailing elements (buckets beyond the physical bucket array,
+/// checksum bytes beyond the checksum size) are zero.
+#[derive(Debug, Clone, PartialEq, Eq, Hash)]
+pub struct GeneratorParts {
+    pub buckets: [u32; 256],
+    pub len: u32,
+    pub checksum: [u8; 3],
+    pub tail: [u8; 4],
+    pub tail_len: u32,
+}
+
+/// The number of physical buckets a generator with `SIZE_BUCKETS`
+/// effective buckets stores in this build configuration.
+pub const fn physical_buckets(size_buckets: usize) -> usize {
+    if cfg!(feature = "opt-low-memory-buckets") {
+        size_buckets
+    } else {
+        256
+    }
+}
+
+/// TLSH's B (bucket) mapping on the 256-bucket variant.
+pub fn b_mapping_256(b0: u8, b1: u8, b2: u8, b3: u8) -> u8 {
+    crate::pearson::tlsh_b_mapping_256(b0, b1, b2, b3)
+}
+
+/// TLSH's B (bucket) mapping on the 48-bucket variant.
+pub fn b_mapping_48(b0: u8, b1: u8, b2: u8, b3: u8) -> u8 {
+    crate::pearson::tlsh_b_mapping_48(b0, b1, b2, b3)
+}
+
+pub use crate::compare::dist_body::verif_backends as body_distance;
+pub use crate::generate::bucket_aggregation::verif_backends as bucket_aggregation;
+
+/// Part distances (as used by the whole-hash comparison).
+pub fn distance_qratios(a: u8, b: u8) -> u32 {
+    crate::compare::dist_qratios::distance(a, b)
+}
+pub fn distance_length(a: u8, b: u8) -> u32 {
+    crate::compare::dist_length::distance(a, b)
+}
+
+// ---------------------------------------------------------------------------
+// Invariant monitor
+
+/// Number of `invariant!()` expressions that evaluated to `false`.
+static INVARIANT_FAILURES: AtomicUsize = AtomicUsize::new(0);
+/// Number of `invariant!()` expressions evaluated.
+static INVARIANT_EVALUATIONS: AtomicUsize = AtomicUsize::new(0);
+/// Description of the first failed invariant (`file:line: expr`, truncated).
+static INVARIANT_FIRST: [AtomicU8; 192] = {
+    #[allow(clippy::declare_interior_mutable_const)]
+    const Z: AtomicU8 = AtomicU8::new(0);
+    [Z; 192]
+};
+
+/// Called by `invariant!()` on each evaluation when the hooks are enabled.
+#[inline(always)]
+pub fn invariant_evaluated() {
+    INVARIANT_EVALUATIONS.fetch_add(1, Ordering::Relaxed);
+}
+
+/// Called by `invariant!()` instead of the configured behavior
+/// (`debug_assert!` / `unreachable_unchecked()` / `assume()`)
+/// when the hooks are enabled and the expression is `false`.
+#[cold]
+pub fn invariant_failed(file: &'static str, line: u32, expr: &'static str) {
+    if INVARIANT_FAILURES.fetch_add(1, Ordering::SeqCst) == 0 {
+        let mut pos = 0usize;
+        let mut put = |b: u8| {
+            if pos < INVARIANT_FIRST.len() {
+                INVARIANT_FIRST[pos].store(b, Ordering::SeqCst);
+                pos += 1;
+            }
+        };
+        for &b in file.as_bytes() {
+            put(b);
+        }
+        put(b':');
+        let mut digits = [0u8; 10];
+        let mut n = line;
+        let mut i = digits.len();
+        loop {
+            i -= 1;
+            digits[i] = b'0' + (n % 10) as u8;
+            n /= 10;
+            if n == 0 {
+                break;
+            }
+        }
+        for &b in &digits[i..] {
+            put(b);
+        }
+        put(b':');
+        put(b' ');
+        for &b in expr.as_bytes() {
+            put(b);
+        }
+    }
+}
+
+/// Returns `(evaluations, failures)` of `invariant!()` so far.
+pub fn invariant_counts() -> (usize, usize) {
+    (
+        INVARIANT_EVALUATIONS.load(Ordering::SeqCst),
+        INVARIANT_FAILURES.load(Ordering::SeqCst),
+    )
+}
+
+/// Copies the description of the first failed invariant into `out`
+/// and returns the number of bytes written.
+pub fn invariant_first_failure(out: &mut [u8]) -> usize {
+    let mut n = 0;
+    for (dst, src) in out.iter_mut().zip(INVARIANT_FIRST.iter()) {
+        let b = src.load(Ordering::SeqCst);
+        if b == 0 {
+            break;
+        }
+        *dst = b;
+        n += 1;
+    }
+    n
+}
+
+/// Resets the invariant monitor.
+pub fn invariant_reset() {
+    INVARIANT_FAILURES.store(0, Ordering::SeqCst);
+    INVARIANT_EVALUATIONS.store(0, Ordering::SeqCst);
+    for b in INVARIANT_FIRST.iter() {
+        b.store(0, Ordering::SeqCst);
+    }
+}
+
+// ---------------------------------------------------------------------------
+// Scheduling points
+
+/// The scheduling point callback (installed once by the harness).
+#[cfg(feature = "std")]
+static SCHED_CALLBACK: std::sync::OnceLock<fn(&'static str)> = std::sync::OnceLock::new();
+
+/// Installs the scheduling point callback.  Returns `false` if one is
+/// already installed.
+#[cfg(feature = "std")]
+pub fn set_sched_callback(callback: fn(&'static str)) -> bool {
+    SCHED_CALLBACK.set(callback).is_ok()
+}
+
+/// A scheduling point: a no-op unless the harness installed a callback.
+#[inline]
+pub fn sched_point(site: &'static str) {
+    #[cfg(feature = "std")]
+    if let Some(callback) = SCHED_CALLBACK.get() {
+        callback(site);
+    }
+    #[cfg(not(feature = "std"))]
+    let _ = site;
+}
